@@ -18,7 +18,10 @@ impl TryFrom<WireUtcDateTime> for UtcDateTime {
 
     fn try_from(value: WireUtcDateTime) -> Result<Self> {
         let time = OffsetDateTime::from_unix_timestamp(value.seconds)?
-            + Duration::nanoseconds(value.nanos as i64);
+            .checked_add(Duration::nanoseconds(value.nanos as i64))
+            .ok_or_else(|| {
+                std::io::Error::other("date time out of range")
+            })?;
         Ok(time.into())
     }
 }
